@@ -1,6 +1,7 @@
 mod event;
 mod gen;
 mod refmodel;
+mod relational;
 mod rng;
 mod runner;
 mod shadow;
